@@ -443,7 +443,22 @@ func c20Corrupt(c *Ctx) {
 			lines := t.tokens()
 			row := 1 + r.IntN(len(lines)-1)
 			var what string
-			switch r.IntN(7) {
+			switch r.IntN(8) {
+			case 7: // values moved from the end of one row to the end of another: the total number of values is still right
+				if len(lines) < 3 || len(lines[1]) < 3 {
+					lines[row] = lines[row][:len(lines[row])-1]
+					what = fmt.Sprintf("row %d: last value dropped", row)
+					break
+				}
+				other := 1 + (row+r.IntN(len(lines)-2))%(len(lines)-1)
+				if other == row {
+					other = 1 + row%(len(lines)-1)
+				}
+				mv := 1 + r.IntN(min(2, len(lines[row])-2))
+				cut := len(lines[row]) - mv
+				lines[other] = append(append([]string{}, lines[other]...), lines[row][cut:]...)
+				lines[row] = append([]string{}, lines[row][:cut]...)
+				what = fmt.Sprintf("%d value(s) moved from the end of row %d to the end of row %d (the total count of values is unchanged)", mv, row, other)
 			case 6: // a table cut off after its header (no score rows at all) whose header has a two-character label
 				j := r.IntN(len(lines[0]))
 				lines = [][]string{append([]string{}, lines[0]...)}
